@@ -59,6 +59,13 @@ class C14(Prop):
                     other.append({"id": bid, "meta": storegen.mk_meta(rng, bid),
                                   "events": [[None, T0 + rng.randrange(0, 50) * 1_000_000, rng.choice([0, 1500, 2_000_000]),
                                               rng.choice(storegen.LABELS)] for _ in range(rng.randint(1, 5))]})
+                if rng.random() < 0.7:
+                    # the other profile also has a bucket of the SAME id as one of this profile's, at another position of its
+                    # bucket table and with other contents
+                    twin_id = buckets[-1]["id"]
+                    other.append({"id": twin_id, "meta": storegen.mk_meta(rng, twin_id),
+                                  "events": [[None, T0 + rng.randrange(50, 90) * 1_000_000, 2_500_000, storegen.LABELS[1]]
+                                             for _ in range(rng.randint(1, 4))]})
                 case["both_profiles"] = other
                 case["other_first"] = False
             if rng.random() < 0.15 and buckets:
